@@ -33,6 +33,7 @@ def monitors_child(rec):
     warnings.simplefilter('ignore')
     rng = random.Random(rec.seed + 17)
     quick = rec.tier == 'quick'
+    DD = child.Distinct().wrap(A, 'armodel_sim').wrap(A, 'armodel_residual')
     ev = 0; bad = 0
     lat = [Fr(k, 8) for k in range(-24, 25)]
     for it in range(250 if quick else 2500):
@@ -72,4 +73,4 @@ def monitors_child(rec):
         except Exception as ex:
             bad += 1; _fail(rec, 'armodel_sim/armodel_residual', 'raises: %s %s' % (type(ex).__name__, str(ex)[:120]), params=[float(p) for p in phi], sim_mean=float(mean), sim_ini=None if ini is None else float(ini))
     rec.bounded_clause('armodel_sim follows the recursion from the initial value; residual(sim(e)) == e and sim(residual(y)) == y through the Python API, explicit and default initial values (incl. 0 with a non-zero mean)',
-                       '%d cases: orders 1..10, 1..25 steps, coefficients / innovations on a dyadic lattice (exact rational oracle), 4 means x 5 initial values' % (250 if quick else 2500), ev, ev, False, bad)
+                       '%d cases: orders 1..10, 1..25 steps, coefficients / innovations on a dyadic lattice (exact rational oracle), 4 means x 5 initial values' % (250 if quick else 2500), ev, DD.n('armodel_sim'), False, bad)
